@@ -25,7 +25,7 @@ def main():
         traceback.print_exc()
         print(f'no check for {a.prop}')
         sys.exit(2)
-    chk = Check(a.prop.upper(), a.tier, a.seed)
+    chk = Check(a.prop.upper(), a.tier, a.seed, keep_replays=bool(a.replay))
     try:
         if a.replay:
             with open(a.replay) as f:
